@@ -197,3 +197,39 @@ namespace verif_drv
         mem::temporary_stack_initializer init(128);
     }
 } // namespace verif_drv
+
+// constructors (most are member templates, which explicit class instantiation does not instantiate)
+namespace verif_drv
+{
+    void drive_ctors(mem::static_allocator_storage<4096>& storage)
+    {
+        mem::memory_pool<>                      p1(16, 1024);
+        mem::memory_pool<mem::array_pool>       p2(16, 1024);
+        mem::memory_pool<mem::small_node_pool>  p3(4, 1024);
+        mem::memory_pool<mem::node_pool, mem::static_block_allocator> p4(16, 1024, storage);
+        mem::memory_stack<>                                       s1(1024);
+        mem::memory_stack<mem::static_block_allocator>            s2(1024, storage);
+        mem::memory_stack<mem::fixed_block_allocator<>>           s3(1024);
+        mem::memory_stack<mem::virtual_block_allocator>           s4(4096, 4);
+        mem::iteration_allocator<1>                               i1(1024);
+        mem::iteration_allocator<2>                               i2(1024);
+        mem::iteration_allocator<3>                               i3(1024);
+        mem::iteration_allocator<4, mem::static_block_allocator>  i4(1024, storage);
+        mem::iteration_allocator<5, mem::fixed_block_allocator<>> i5(1024);
+        mem::memory_pool_collection<mem::node_pool, mem::identity_buckets>       c1(64, 4096);
+        mem::memory_pool_collection<mem::array_pool, mem::log2_buckets>          c2(64, 4096);
+        mem::memory_pool_collection<mem::small_node_pool, mem::identity_buckets> c3(16, 4096);
+        mem::memory_pool_collection<mem::node_pool, mem::log2_buckets, mem::static_block_allocator> c4(64, 4096, storage);
+        mem::memory_arena<mem::growing_block_allocator<>, true>   a1(1024);
+        mem::memory_arena<mem::static_block_allocator, false>     a2(1024, storage);
+        mem::static_allocator                                     st(storage);
+        mem::static_block_allocator                               sb(1024, storage);
+        mem::virtual_block_allocator                              vb(4096, 4);
+        mem::fixed_block_allocator<>                              fb(1024);
+        mem::growing_block_allocator<>                            gb(1024);
+        mem::temporary_stack                                      ts(1024);
+        mem::temporary_allocator                                  ta(ts);
+        (void)p1; (void)p2; (void)p3; (void)p4; (void)s1; (void)s2; (void)s3; (void)s4; (void)i1; (void)i2; (void)i3; (void)i4; (void)i5;
+        (void)c1; (void)c2; (void)c3; (void)c4; (void)a1; (void)a2; (void)st; (void)sb; (void)vb; (void)fb; (void)gb; (void)ta;
+    }
+} // namespace verif_drv
